@@ -49,7 +49,9 @@ def op_fault_decode(a):
             dec = lambda b: pdu_class(a["pk"]).unpack(b)
             gen = lambda b: PduFactory.from_raw(b)
         else:
-            obj = mk_tc(a["p"]) if kind == "tc" else mk_tm(a["p"])
+            # every other schedule keeps the data in a bytearray (the view / pack calls must not touch it)
+            obj = (mk_tc(a["p"], "bytearray" if len(a["p"]["data"]) % 2 else "ctor") if kind == "tc"
+                   else mk_tm(a["p"], "bytearray" if len(a["p"]["data"]) % 2 else "tm"))
             if a["mut"]:
                 obj.pack()                  # an earlier pack() must not leave a checksum behind that survives the setters
             for m in a["mut"]:
